@@ -2,6 +2,7 @@ import Driver.Util
 import EspadaVerif.Model.Pair
 import EspadaVerif.Spec.Cards
 import EspadaVerif.Model.Eval
+import EspadaVerif.Model.HandType
 import EspadaVerif.Spec.Poker
 import EspadaVerif.Model.Showdown
 import EspadaVerif.Spec.ShowdownSpec
@@ -62,6 +63,34 @@ def specShowdown (a : List String) : Option String :=
       some s!"=some board={bs} players={ps} wl=ok {wl} prob={prob}"
   | _ => none
 
+/-- all seven-card sets whose three lowest codes are `x < y < z`, each in an order chosen by its card sum (the same
+order the harness uses); `f` maps the presented cards to (index, category) -/
+def blockFold (x y z : Nat) (f : List Nat → Nat × Nat) : Nat × UInt64 × Array Nat := Id.run do
+  let mut h : UInt64 := 0xcbf29ce484222325
+  let mut cnt := 0
+  let mut cats : Array Nat := Array.replicate 10 0
+  for d in [z + 1 : 52] do
+    for e in [d + 1 : 52] do
+      for ff in [e + 1 : 52] do
+        for g in [ff + 1 : 52] do
+          let cs := [x, y, z, d, e, ff, g]
+          let rot := (x + y + z + d + e + ff + g) % 7
+          let cs := cs.drop rot ++ cs.take rot
+          let cs := if (d + g) % 2 == 1 then
+              match cs with
+              | [c0, c1, c2, c3, c4, c5, c6] => [c0, c5, c2, c3, c4, c1, c6]
+              | l => l
+            else cs
+          let (idx, cat) := f cs
+          h := (h ^^^ idx.toUInt64) * 0x100000001b3
+          cats := cats.modify (min cat 9) (· + 1)
+          cnt := cnt + 1
+  return (cnt, h, cats)
+
+def showBlock (r : Nat × UInt64 × Array Nat) : String :=
+  let (cnt, h, cats) := r
+  s!"ok n={cnt} digest={h.toNat} cats={",".intercalate ((cats.toList.take 9).map toString)} other={cats.getD 9 0}"
+
 def runOp1 (op : String) (a : List String) : Option String :=
   let n (i : Nat) : Nat := (a.getD i "0").toNat!
   match op with
@@ -97,6 +126,11 @@ def runOp1 (op : String) (a : List String) : Option String :=
   | "show_pair" => some (hex (showPair (mkPair (Card.ofCode (n 0)) (Card.ofCode (n 1)))))
   | "pair_index" =>
     some (showRes (fun c => toString c.code) ((mkPair (Card.ofCode (n 0)) (Card.ofCode (n 1))).index (n 2)))
+  | "eval7_block" =>
+    some (showBlock (blockFold (n 0) (n 1) (n 2) fun cs =>
+      match eval7 (cs.map Card.ofCode) with
+      | .ok i => (i, handType i)
+      | _ => (0, 9)))
   | "showdown" => some (opShowdown a)
   | "iter" => some (opIter a)
   | "eval7" =>
@@ -151,6 +185,10 @@ def specOp1 (op : String) (a : List String) : Option String :=
       | some x, some y => if x == y then none else some s!"=ok {52 * min x y + max x y}"
       | _, _ => none
     | _ => none
+  | "eval7_block" =>
+    some ("=" ++ showBlock (blockFold (n 0) (n 1) (n 2) fun cs =>
+      let b := Spec.best (cs.map fun c => (c / 4, c % 4))
+      (b, Spec.catOfClass b)))
   | "showdown" => specShowdown a
   | "iter" => specIter a
   | "eval7" =>
